@@ -89,9 +89,20 @@ func (m *cmpModel) side(v ssa.Value, depth int) (int, string) {
 	case *ssa.ChangeType:
 		return m.side(x.X, depth+1)
 	case *ssa.Alloc:
-		// a parameter spilled into a cell
+		// a parameter spilled into a cell, or a copy of an element taken into a local
 		if sv := spilledParam(x); sv != nil {
 			return m.side(sv, depth+1)
+		}
+		var only ssa.Value
+		nSt := 0
+		for _, ref := range *x.Referrers() {
+			if st, ok := ref.(*ssa.Store); ok && st.Addr == x {
+				nSt++
+				only = st.Val
+			}
+		}
+		if nSt == 1 {
+			return m.side(only, depth+1)
 		}
 	case *ssa.Call:
 		// a.F.UTC(), a.F.UnixNano(): order-preserving views of the field
@@ -220,9 +231,12 @@ func (m *cmpModel) eval(v ssa.Value, rels map[string]int, phis map[*ssa.Phi]ssa.
 	case *ssa.Convert:
 		return m.eval(x.X, rels, phis, depth+1)
 	case *ssa.BinOp:
-		if r, ok := m.rel(x.X, x.Y, rels); ok {
-			if b, ok := cmpOp(x.Op, r); ok {
-				return absVal{kind: 1, b: b}
+		// (== on a struct such as time.Time compares representations, not the ordering the fields stand for)
+		if _, basic := x.X.Type().Underlying().(*types.Basic); basic {
+			if r, ok := m.rel(x.X, x.Y, rels); ok {
+				if b, ok := cmpOp(x.Op, r); ok {
+					return absVal{kind: 1, b: b}
+				}
 			}
 		}
 		// sign value against 0
